@@ -16,6 +16,7 @@ import bisect
 import concurrent.futures as cf
 import itertools
 import logging
+import os
 import re
 import struct
 import time
@@ -168,8 +169,11 @@ def region_line(off, length, ml, is_end, field, sizes):
     return req('region', off, length, 'N' if ml is None else ml, 1 if is_end else 0, field, sizes_field(sizes))
 
 
-def ask_parallel(driver, lines, workers=WORKERS, weights=None):
+def ask_parallel(driver, lines, workers=None, weights=None):
     """ask_many over several driver processes (heaviest requests spread first); order kept"""
+    if workers is None:
+        # eleven ambient children run side by side: fewer driver processes each
+        workers = 2 if os.environ.get('VERIF_AMBIENT') else WORKERS
     n = len(lines)
     if n == 0:
         return []
@@ -1107,12 +1111,14 @@ class Feeder:
 
 _CTOR = {}
 _SUBCLASS = {}
+SUBCLASS_KINDS = ('trivial', 'constant', 'addcheck', 'hooks', 'override')
 
 
 def insp_class(fmt, kind=None):
     """the public inspector class of `fmt`, or a subclass of it that a user of the library may write:
-    'trivial' (`class X(Base): pass`) or 'override' (adds a class constant and overrides one method by calling
-    the inherited one).  A subclass that changes nothing must behave exactly like its base class."""
+    'trivial' (`class X(Base): pass`), 'constant' (re-declares the class constants), 'addcheck' (adds a passing
+    safety check), 'hooks' (region_complete / post_process calling the inherited ones), 'override' (adds a constant
+    and overrides _initialize / safety_check by calling the inherited ones).  A subclass that changes nothing must behave exactly like its base class."""
     base = insp_impl.fi().ALL_FORMATS[fmt]
     if not kind:
         return base
@@ -1120,6 +1126,22 @@ def insp_class(fmt, kind=None):
     if key not in _SUBCLASS:
         if kind == 'trivial':
             _SUBCLASS[key] = type('Sub' + base.__name__, (base,), {})
+        elif kind == 'constant':          # re-declares the class constants (same values) and nothing else
+            consts = {k: v for c in reversed(base.__mro__) for k, v in vars(c).items()
+                      if k.isupper() and isinstance(v, (int, str, bytes, tuple))}
+            _SUBCLASS[key] = type('SubC' + base.__name__, (base,), dict(consts, SITE_LABEL='x'))
+        elif kind == 'addcheck':          # registers one more safety check, which passes
+            def _initialize(self):
+                super(_SUBCLASS[key], self)._initialize()
+                self.add_safety_check(insp_impl.fi().SafetyCheck('site_policy', lambda: None))
+            _SUBCLASS[key] = type('SubK' + base.__name__, (base,), {'_initialize': _initialize})
+        elif kind == 'hooks':             # overrides the hooks by calling the inherited ones
+            def region_complete(self, region_name):
+                return super(_SUBCLASS[key], self).region_complete(region_name)
+
+            def post_process(self):
+                return super(_SUBCLASS[key], self).post_process()
+            _SUBCLASS[key] = type('SubH' + base.__name__, (base,), {'region_complete': region_complete, 'post_process': post_process})
         elif kind == 'override':
             def _initialize(self):
                 return super(_SUBCLASS[key], self)._initialize()
@@ -1153,7 +1175,7 @@ def ctor_variants(fmt):
         out = [{}]
         for k in range(1, 1 << len(names)):
             out.append({n: (not defaults[n]) for i, n in enumerate(names) if k >> i & 1})
-        out += [{'__class__': 'trivial'}, {'__class__': 'override'}]
+        out += [{'__class__': k} for k in SUBCLASS_KINDS]
         _CTOR[fmt] = out
     return _CTOR[fmt]
 
@@ -1405,7 +1427,7 @@ def run_impl(pair, rng=None):
         return 'CRASH:%s:%s' % (type(e).__name__, e)
 
 
-def run_pairs(ctx, pairs, on_result=None, workers=WORKERS):
+def run_pairs(ctx, pairs, on_result=None, workers=None):
     """model vs implementation; returns the disagreements.  `on_result(pair, impl_string)` lets the
     caller keep statistics."""
     lines = [p.line() for p in pairs]
